@@ -24,6 +24,8 @@
 EXTENDS Naturals, Integers, Sequences, FiniteSets, TLC
 
 CONSTANTS MaxH,         \* number of handle slots
+          BlockSize,    \* 0: writes are atomic; b > 0: block_size = b -- a crash may leave "block-aligned prefixes of
+                        \* [the file's] pending writes"
           SyncKnob      \* TRUE: sync_probability > 0 -- every write / set_len may be followed by a background data
                         \* sync of that file ("a later sync point of the file" is then a permitted crash content)
 
@@ -88,10 +90,31 @@ NoIno == 0
 NoEnts == [n \in {} |-> 0]
 \* cands: contents the file had immediately after a write / set_len since its last explicit data sync (kept
 \* only under SyncKnob): the contents a background sync may have made durable
-NewFile == [kind |-> "file", ents |-> NoEnts, data |-> <<>>, dents |-> NoEnts, ddata |-> <<>>, cands |-> {}]
-NewDir  == [kind |-> "dir",  ents |-> NoEnts, data |-> <<>>, dents |-> NoEnts, ddata |-> <<>>, cands |-> {}]
+\* --- byte helpers ----------------------------------------------------------
+Zeros(n) == [k \in 1..n |-> 0]
+Resize(d, n) == IF n <= Len(d) THEN SubSeq(d, 1, n) ELSE d \o Zeros(n - Len(d))
+WriteBytes(d, off, w) ==
+    LET base == Resize(d, Max(Len(d), off + Len(w)))
+    IN [k \in 1..Len(base) |-> IF k > off /\ k <= off + Len(w) THEN w[k - off] ELSE base[k]]
+ReadBytes(d, off, n) == IF off >= Len(d) THEN <<>> ELSE SubSeq(d, off + 1, Min(Len(d), off + n))
+
+\* pw: the write calls [off, data] since the last data sync of the file, in issue order (kept only under BlockSize)
+NewFile == [kind |-> "file", ents |-> NoEnts, data |-> <<>>, dents |-> NoEnts, ddata |-> <<>>, cands |-> {}, pw |-> <<>>]
+NewDir  == [kind |-> "dir",  ents |-> NoEnts, data |-> <<>>, dents |-> NoEnts, ddata |-> <<>>, cands |-> {}, pw |-> <<>>]
 SetData(t, i, d) == [t EXCEPT ![i].data = d, ![i].cands = IF SyncKnob THEN @ \cup {d} ELSE @]
-Permitted(t, i) == {t[i].ddata} \cup t[i].cands
+\* a write call: the new contents, and the call itself as a pending write
+Wrote(t, i, d, off, w) ==
+    [SetData(t, i, d) EXCEPT ![i].pw = IF BlockSize > 0 /\ w # <<>> THEN Append(@, [off |-> off, data |-> w]) ELSE @]
+\* torn writes (DESIGN A.5): on top of the base every pending write independently contributes a prefix of k * b
+\* bytes (0 <= k <= ceil(len / b), capped at its length), applied in issue order; a pending set_len never tears
+RECURSIVE TornSet(_, _, _)
+TornSet(pw, k, acc) ==
+    IF k > Len(pw) THEN acc
+    ELSE LET w == pw[k]
+             nb == (Len(w.data) + BlockSize - 1) \div BlockSize
+         IN TornSet(pw, k + 1, {IF n = 0 THEN c ELSE WriteBytes(c, w.off, SubSeq(w.data, 1, Min(n * BlockSize, Len(w.data)))) :
+                                   <<c, n>> \in acc \X (0..nb)})
+Permitted(t, i) == IF BlockSize > 0 THEN TornSet(t[i].pw, 1, {t[i].ddata}) ELSE {t[i].ddata} \cup t[i].cands
 
 RInit ==
     /\ ino = <<NewDir>>
@@ -124,14 +147,6 @@ LastName(s) == Seg(s)[Len(Seg(s))]
 ChildrenT(t, s) ==      \* paths of the universe that are direct children of directory s in table t
     {c \in Universe : c # "/" /\ ParentSeq(Seg(c)) = Seg(s) /\ LookupT(t, c) # NoIno}
 
-\* --- byte helpers ----------------------------------------------------------
-Zeros(n) == [k \in 1..n |-> 0]
-Resize(d, n) == IF n <= Len(d) THEN SubSeq(d, 1, n) ELSE d \o Zeros(n - Len(d))
-WriteBytes(d, off, w) ==
-    LET base == Resize(d, Max(Len(d), off + Len(w)))
-    IN [k \in 1..Len(base) |-> IF k > off /\ k <= off + Len(w) THEN w[k - off] ELSE base[k]]
-ReadBytes(d, off, n) == IF off >= Len(d) THEN <<>> ELSE SubSeq(d, off + 1, Min(Len(d), off + n))
-
 \* --- tree updates ----------------------------------------------------------
 Link(t, dirI, name, i) == [t EXCEPT ![dirI].ents = [n \in (DOMAIN @) \cup {name} |-> IF n = name THEN i ELSE @[n]]]
 Unlink(t, dirI, name) == [t EXCEPT ![dirI].ents = [n \in (DOMAIN @) \ {name} |-> @[n]]]
@@ -139,11 +154,14 @@ DLink(t, dirI, name, i) == [t EXCEPT ![dirI].dents = [n \in (DOMAIN @) \cup {nam
 
 \* ---------------------------------------------------------------------------
 \* view: what exists / metadata / read / read_dir report for every path of a list
+\* t: the tails of the file read through a fresh handle at the offsets 1..3 (read_at windows that do not
+\* start at 0: "read_at at arbitrary offsets")
+Tails(d) == [o \in 1..Min(Len(d), 3) |-> SubSeq(d, o + 1, Len(d))]
 RInfoT(t, s) ==
     LET i == LookupT(t, s) IN
-    IF i = NoIno THEN [k |-> "none", l |-> 0, d |-> <<>>, ed |-> FALSE, e |-> <<>>]
-    ELSE IF t[i].kind = "file" THEN [k |-> "file", l |-> Len(t[i].data), d |-> t[i].data, ed |-> FALSE, e |-> <<>>]
-    ELSE [k |-> "dir", l |-> 0, d |-> <<>>, ed |-> TRUE, e |-> SeqOfSet(ChildrenT(t, s))]
+    IF i = NoIno THEN [k |-> "none", l |-> 0, d |-> <<>>, t |-> <<>>, ed |-> FALSE, e |-> <<>>]
+    ELSE IF t[i].kind = "file" THEN [k |-> "file", l |-> Len(t[i].data), d |-> t[i].data, t |-> Tails(t[i].data), ed |-> FALSE, e |-> <<>>]
+    ELSE [k |-> "dir", l |-> 0, d |-> <<>>, t |-> <<>>, ed |-> TRUE, e |-> SeqOfSet(ChildrenT(t, s))]
 RViewOn(ps) == [k \in 1..Len(ps) |-> RInfoT(ino, ps[k])]
 
 \* ---------------------------------------------------------------------------
@@ -184,7 +202,8 @@ R_WriteAt(op) ==
     /\ HOpen(op) /\ UNCHANGED <<hnd, mode>>
     /\ IF ~H(op).wr THEN rres' = Err("BadAccess") /\ UNCHANGED ino
        ELSE /\ rres' = Ok(Len(op.data))
-            /\ ino' = SetData(ino, HI(op), IF op.data = <<>> THEN ino[HI(op)].data ELSE WriteBytes(ino[HI(op)].data, op.off, op.data))
+            /\ ino' = Wrote(ino, HI(op), IF op.data = <<>> THEN ino[HI(op)].data ELSE WriteBytes(ino[HI(op)].data, op.off, op.data),
+                            op.off, op.data)
 
 R_ReadAt(op) ==
     /\ HOpen(op) /\ UNCHANGED <<ino, hnd, mode>>
@@ -197,7 +216,8 @@ R_Write(op) ==      \* cursor / append write
     /\ IF ~H(op).wr THEN rres' = Err("BadAccess") /\ UNCHANGED <<ino, hnd>>
        ELSE LET off == IF H(op).app THEN Len(ino[HI(op)].data) ELSE H(op).cur IN
             /\ rres' = Ok(Len(op.data))
-            /\ ino' = SetData(ino, HI(op), IF op.data = <<>> THEN ino[HI(op)].data ELSE WriteBytes(ino[HI(op)].data, off, op.data))
+            /\ ino' = Wrote(ino, HI(op), IF op.data = <<>> THEN ino[HI(op)].data ELSE WriteBytes(ino[HI(op)].data, off, op.data),
+                            off, op.data)
             /\ hnd' = [hnd EXCEPT ![op.h].cur = off + Len(op.data)]
 
 R_Read(op) ==       \* cursor read
@@ -229,7 +249,7 @@ R_Len(op) ==
 R_SyncFile(op) ==
     /\ HOpen(op) /\ UNCHANGED <<hnd, mode>>
     /\ rres' = Ok(0)
-    /\ ino' = [ino EXCEPT ![HI(op)].ddata = ino[HI(op)].data, ![HI(op)].cands = {}]
+    /\ ino' = [ino EXCEPT ![HI(op)].ddata = ino[HI(op)].data, ![HI(op)].cands = {}, ![HI(op)].pw = <<>>]
 
 \* sync_dir(p): the entries of p become durable as they are now, and so does p's own entry in its parent
 R_SyncDir(op) ==
@@ -334,14 +354,14 @@ R_WriteFile(op) ==      \* std::fs::write = create + truncate + write_all
     /\ IF ~ParentOk(s) THEN rres' = Err(ParentErr(s)) /\ UNCHANGED ino
        ELSE IF i # NoIno /\ ino[i].kind = "dir" THEN rres' = Err("IsDir") /\ UNCHANGED ino
        \* std::fs::write: create + truncate (no background sync there), then one write call unless the data is empty
-       ELSE IF i # NoIno THEN rres' = Ok(0) /\ ino' = IF op.data = <<>> THEN [ino EXCEPT ![i].data = <<>>] ELSE SetData(ino, i, op.data)
+       ELSE IF i # NoIno THEN rres' = Ok(0) /\ ino' = IF op.data = <<>> THEN [ino EXCEPT ![i].data = <<>>] ELSE Wrote(ino, i, op.data, 0, op.data)
        ELSE /\ rres' = Ok(0)
             /\ LET t1 == Link(Append(ino, NewFile), Lookup(ParentStr(s)), LastName(s), Len(ino) + 1) IN
-               ino' = IF op.data = <<>> THEN t1 ELSE SetData(t1, Len(ino) + 1, op.data)
+               ino' = IF op.data = <<>> THEN t1 ELSE Wrote(t1, Len(ino) + 1, op.data, 0, op.data)
 
 \* ---------------------------------------------------------------------------
 \* crash
-Crashed == [i \in DOMAIN ino |-> [ino[i] EXCEPT !.ents = ino[i].dents, !.data = ino[i].ddata, !.cands = {}]]
+Crashed == [i \in DOMAIN ino |-> [ino[i] EXCEPT !.ents = ino[i].dents, !.data = ino[i].ddata, !.cands = {}, !.pw = <<>>]]
 AllNames == {"a", "b", "c", "d", "e"}
 Succ(t, i) == IF t[i].kind = "dir" THEN {t[i].ents[n] : n \in DOMAIN t[i].ents} ELSE {}
 RECURSIVE ReachSet(_, _, _)
